@@ -8,6 +8,7 @@ package main
 //                 activation (or by a callee whose result is fresh)
 
 import (
+	"fmt"
 	"go/ast"
 	"go/token"
 	"go/types"
@@ -545,4 +546,102 @@ func isCollectionLike(t types.Type) bool {
 		}
 	}
 	return false
+}
+
+// ---------------------------------------------------------------- result and receiver share one allocation
+
+// allocRoots: the allocation sites (make, new, composite literal, call result) a value is carved
+// out of, looking through slicing, conversions, interface wrapping and phis.
+func allocRoots(v ssa.Value, seen map[ssa.Value]bool, out map[ssa.Value]bool) {
+	if v == nil || seen[v] {
+		return
+	}
+	seen[v] = true
+	switch x := v.(type) {
+	case *ssa.Slice:
+		allocRoots(x.X, seen, out)
+	case *ssa.ChangeType:
+		allocRoots(x.X, seen, out)
+	case *ssa.Convert:
+		allocRoots(x.X, seen, out)
+	case *ssa.MakeInterface:
+		allocRoots(x.X, seen, out)
+	case *ssa.ChangeInterface:
+		allocRoots(x.X, seen, out)
+	case *ssa.TypeAssert:
+		allocRoots(x.X, seen, out)
+	case *ssa.Extract:
+		allocRoots(x.Tuple, seen, out)
+	case *ssa.Phi:
+		for _, e := range x.Edges {
+			allocRoots(e, seen, out)
+		}
+	case *ssa.UnOp:
+		if x.Op == token.MUL {
+			// a load: of a local slot follow the stores into it, otherwise the load is opaque
+			if a, ok := x.X.(*ssa.Alloc); ok && !a.Heap {
+				for _, ref := range *a.Referrers() {
+					if st, ok := ref.(*ssa.Store); ok && st.Addr == a {
+						allocRoots(st.Val, seen, out)
+					}
+				}
+			}
+		}
+	case *ssa.MakeSlice, *ssa.MakeMap, *ssa.Alloc:
+		out[x] = true
+	case *ssa.Call:
+		out[x] = true
+	}
+}
+
+// resultSharesWithReceiver: f returns a Go container (or a collection wrapping one) that is
+// carved out of the same allocation as something f stores into a field of its receiver.
+func resultSharesWithReceiver(fa *flowAn, f *ssa.Function) string {
+	if f == nil || len(f.Params) == 0 || f.Signature.Recv() == nil {
+		return ""
+	}
+	recv := f.Params[0]
+	stored := map[ssa.Value]bool{}
+	var storePos token.Pos
+	for _, b := range f.Blocks {
+		for _, ins := range b.Instrs {
+			st, ok := ins.(*ssa.Store)
+			if !ok {
+				continue
+			}
+			fa2, ok := st.Addr.(*ssa.FieldAddr)
+			if !ok || fa2.X != recv || !carriesStorage(st.Val.Type()) {
+				continue
+			}
+			before := len(stored)
+			allocRoots(st.Val, map[ssa.Value]bool{}, stored)
+			if len(stored) > before {
+				storePos = st.Pos()
+			}
+		}
+	}
+	if len(stored) == 0 {
+		return ""
+	}
+	for _, b := range f.Blocks {
+		for _, ins := range b.Instrs {
+			ret, ok := ins.(*ssa.Return)
+			if !ok {
+				continue
+			}
+			for _, rv := range ret.Results {
+				if !carriesStorage(rv.Type()) {
+					continue
+				}
+				roots := map[ssa.Value]bool{}
+				allocRoots(rv, map[ssa.Value]bool{}, roots)
+				for root := range roots {
+					if stored[root] {
+						return fmt.Sprintf("the result and the value stored into the receiver at %s are carved out of one allocation (%s at %s): the sequence handed to the caller and the collection's own storage share a backing array, so a later change of one shows in the other", fa.pos(storePos), root.Name(), fa.pos(root.Pos()))
+					}
+				}
+			}
+		}
+	}
+	return ""
 }
